@@ -153,6 +153,10 @@ pub struct Cluster {
     pub overlapping_candidates: u64,
     /// a set-primary reached a node that believed it was the primary
     pub set_primary_to_primary: u64,
+    /// client sessions that stay connected between commands (an arbiter, a watcher): (node, client + receiver)
+    pub sessions: Vec<Option<(usize, Arc<Mutex<(Client, Receiver<String>)>>)>>,
+    /// `run` stopped because a line longer than 1 MB was queued between two nodes
+    pub runaway_line: bool,
 }
 
 #[derive(Clone, Debug, PartialEq)]
@@ -186,7 +190,7 @@ impl Cluster {
             peers.push(addr.clone());
             nodes.push(SimNode { node: None, addr, dir: format!("{}/n{}", scratch, i), pid: pids[i] });
         }
-        Cluster { nodes, conns: vec![], tasks: vec![], now_ns: 0, trace: vec![], delivered: vec![], steps: 0, early_polls: 0, panics: vec![], peers, election_events: vec![], dirty_sup: vec![false; n], dirty_rep: vec![false; n], early_elapsed_ns: 0, stamp: 0, dirty_sup_since: vec![0; n], dirty_rep_since: vec![0; n], overlapping_candidates: 0, set_primary_to_primary: 0 }
+        Cluster { nodes, conns: vec![], tasks: vec![], now_ns: 0, trace: vec![], delivered: vec![], steps: 0, early_polls: 0, panics: vec![], peers, election_events: vec![], dirty_sup: vec![false; n], dirty_rep: vec![false; n], early_elapsed_ns: 0, stamp: 0, dirty_sup_since: vec![0; n], dirty_rep_since: vec![0; n], overlapping_candidates: 0, set_primary_to_primary: 0, sessions: vec![], runaway_line: false }
     }
 
     pub fn idx_of(&self, addr: &str) -> Option<usize> {
@@ -641,8 +645,13 @@ impl Cluster {
     /// Runs until quiescence (or the step budget). `choose` picks among the enabled deliveries
     /// (index into the list); the clock moves only when nothing else can.
     pub fn run(&mut self, choices: &mut dyn FnMut(usize) -> usize, max_steps: u64) -> bool {
-        let start = self.steps;
         self.early_elapsed_ns = 0;
+        self.run_continue(choices, max_steps)
+    }
+
+    /// continues a `run` that ran out of steps (same quiet period: the early-poll allowance is not renewed)
+    pub fn run_continue(&mut self, choices: &mut dyn FnMut(usize) -> usize, max_steps: u64) -> bool {
+        let start = self.steps;
         loop {
             if self.steps - start > max_steps {
                 return false;
@@ -651,6 +660,11 @@ impl Cluster {
             self.flush_channels();
             self.collect_pending_clients();
             self.collect_pending_link_clients();
+            // a line of a megabyte between nodes: an exchange whose messages keep growing (stopped before it eats the memory)
+            if self.conns.iter().any(|c| c.c2s.iter().chain(c.s2c.iter()).any(|(_, l)| l.len() > (1 << 20))) {
+                self.runaway_line = true;
+                return false;
+            }
             let en: Vec<Action> = self.enabled();
             if !en.is_empty() {
                 let k = choices(en.len()).min(en.len() - 1);
@@ -696,6 +710,74 @@ impl Cluster {
         self.flush_channels();
         let r = out.lock().unwrap().clone();
         r
+    }
+
+    /// opens a client session on node i that stays connected; returns its handle
+    pub fn open_session(&mut self, i: usize) -> usize {
+        let (c, rx) = Client::new_empty_and_receiver();
+        self.sessions.push(Some((i, Arc::new(Mutex::new((c, rx))))));
+        self.log(format!("session {} opened @n{}", self.sessions.len() - 1, i));
+        self.sessions.len() - 1
+    }
+
+    /// sends lines on a session opened with `open_session`; returns reply + the messages pushed so far per line
+    pub fn session_send(&mut self, sid: usize, lines: Vec<String>) -> Vec<String> {
+        let (i, sess) = match self.sessions.get(sid).and_then(|s| s.clone()) {
+            Some(x) => x,
+            None => return vec![],
+        };
+        if self.nodes[i].node.is_none() {
+            return vec![];
+        }
+        let dbs = self.nodes[i].node.as_ref().unwrap().dbs.clone();
+        let out: Arc<Mutex<Vec<String>>> = Arc::new(Mutex::new(vec![]));
+        let out2 = out.clone();
+        self.log(format!("session {}@n{} {:?}", sid, i, lines));
+        self.spawn_task(i, None, format!("session {:?}", lines), move || {
+            let mut g = sess.lock().unwrap();
+            for l in lines {
+                let r = process_request(&l, &dbs, &mut g.0);
+                let mut msgs = vec![];
+                while let Ok(Some(m)) = g.1.try_next() {
+                    msgs.push(m);
+                }
+                out2.lock().unwrap().push(format!("{} {:?}", crate::node::resp_text(&r), msgs));
+            }
+        });
+        self.absorb_offers();
+        self.flush_channels();
+        let r = out.lock().unwrap().clone();
+        r
+    }
+
+    /// what was pushed to a session since it last sent something
+    pub fn session_drain(&mut self, sid: usize) -> Vec<String> {
+        let mut msgs = vec![];
+        if let Some(Some((_, sess))) = self.sessions.get(sid) {
+            let mut g = sess.lock().unwrap();
+            while let Ok(Some(m)) = g.1.try_next() {
+                msgs.push(m);
+            }
+        }
+        msgs
+    }
+
+    /// the session's connection ends
+    pub fn close_session(&mut self, sid: usize) {
+        if let Some(Some((i, sess))) = self.sessions.get(sid).cloned() {
+            self.sessions[sid] = None;
+            if self.nodes[i].node.is_none() {
+                return;
+            }
+            let dbs = self.nodes[i].node.as_ref().unwrap().dbs.clone();
+            self.spawn_task(i, None, "session closes".to_string(), move || {
+                let mut g = sess.lock().unwrap();
+                process_request("unwatch-all", &dbs, &mut g.0);
+                g.0.left(&dbs);
+            });
+            self.absorb_offers();
+            self.flush_channels();
+        }
     }
 
     /// several client sessions on node i at once: their commands interleave at nun-db's lock acquisitions under an
@@ -748,6 +830,11 @@ impl Cluster {
         // threads of that process die with it
         self.cancel_tasks(Some(i));
         self.nodes[i].node = None;
+        for s in self.sessions.iter_mut() {
+            if s.as_ref().map(|x| x.0 == i).unwrap_or(false) {
+                *s = None;
+            }
+        }
         for c in self.conns.iter_mut() {
             if c.dead {
                 continue;
